@@ -3,12 +3,13 @@
 seeded/SUMMARY.md from a seeded_batch result file. usage: seeded_collect.py <agents-root> <results.json>"""
 import json, os, re, shutil, sys
 root, resf = sys.argv[1], sys.argv[2]
+tag = sys.argv[3] if len(sys.argv) > 3 else ''
 VERIF = os.path.dirname(os.path.dirname(os.path.abspath(__file__)))
 res = {r['dir']: r for r in json.load(open(resf)) if 'dir' in r}
 rows = []
 for d, r in sorted(res.items()):
     prop, ch = d.split('/')[-2], d.split('/')[-1]
-    sid = '%s-%s' % (prop, ch.replace('change', ''))
+    sid = '%s-%s%s' % (prop, tag, ch.replace('change', ''))
     confirmed = bool(r.get('applies') and r.get('builds') and r.get('baseline_ok') and r.get('demo_unchanged_matches_expected') and r.get('demo_changed_differs'))
     out = os.path.join(VERIF, 'seeded', sid)
     os.makedirs(out, exist_ok=True)
@@ -34,7 +35,7 @@ for d, r in sorted(res.items()):
                 checks={p: dict(exit=c['rc'], lines=c['lines'][:3]) for p, c in checks.items()}, detected_by=by)
     json.dump(meta, open(os.path.join(out, 'meta.json'), 'w'), indent=1)
     rows.append((sid, prop, confirmed, by, own.get('rc'), ([l for l in own.get('lines', []) if l.startswith('VIOLATION')] or own.get('lines') or [''])[0][:150], {p: c['rc'] for p, c in checks.items() if p != prop}))
-with open(os.path.join(VERIF, 'seeded', 'SUMMARY.md'), 'w') as f:
+with open(os.path.join(VERIF, 'seeded', 'SUMMARY%s.md' % ('-' + tag.strip('-') if tag else '')), 'w') as f:
     f.write('# Seeded changes and which check catches them\n\n')
     f.write('Each change was written by a fresh sub-agent that saw only the property text and a scratch worktree; each was confirmed here '
             '(applies, builds, 48-test baseline unchanged, demonstration passes without and fails with the change). '
@@ -46,4 +47,4 @@ with open(os.path.join(VERIF, 'seeded', 'SUMMARY.md'), 'w') as f:
     n = len(rows)
     f.write('\n%d changes: %d by proof, %d by the bounded stand-in, %d undecided, %d missed.\n' % (
         n, sum(1 for r in rows if r[3] == 'proof'), sum(1 for r in rows if r[3] == 'bounded'), sum(1 for r in rows if r[3] == 'undecided'), sum(1 for r in rows if r[3] == 'missed')))
-print(open(os.path.join(VERIF, 'seeded', 'SUMMARY.md')).read()[-400:])
+print(open(os.path.join(VERIF, 'seeded', 'SUMMARY%s.md' % ('-' + tag.strip('-') if tag else ''))).read()[-300:])
